@@ -106,6 +106,47 @@ def md013(lines, limit, strict):
     return out
 
 
+def md013x(lines, code_lines, heading_lines, limits, code_blocks, headings, strict):
+    """rule_md013.md, 'Special Elements': headings use heading_line_length (and are skipped
+    when `headings` is off), code block lines use code_block_line_length (skipped when
+    `code_blocks` is off), every other line uses line_length.  limits = (line, heading, code)."""
+    out = []
+    for i, l in enumerate(lines):
+        if i in code_lines:
+            if not code_blocks:
+                continue
+            limit = limits[2]
+        elif i in heading_lines:
+            if not headings:
+                continue
+            limit = limits[1]
+        else:
+            limit = limits[0]
+        if len(l) > limit:
+            if strict:
+                out.append(i + 1)
+            else:
+                j = limit
+                found = False
+                while j < len(l):
+                    if l[j] == " " or l[j] == "\t":
+                        found = True
+                        break
+                    j += 1
+                if found:
+                    out.append(i + 1)
+    return out
+
+
+def heading_lines(md_tokens):
+    out = []
+    for t in md_tokens:
+        if t.type == "heading_open" and t.map:
+            for ln in range(t.map[0], t.map[1]):
+                out.append(ln)
+    return out
+
+
 def md047(lines):
     """rule_md047.md: the document does not end with a single newline: its last line (the
     text after the final newline) is not empty."""
